@@ -17,6 +17,9 @@ package dmarccheck
 import (
 	"bufio"
 	"context"
+	"crypto/ed25519"
+	"crypto/rand"
+	"encoding/base64"
 	"encoding/json"
 	"errors"
 	"fmt"
@@ -25,9 +28,11 @@ import (
 	"strings"
 	"sync"
 	"testing"
+	"time"
 
 	"github.com/emersion/go-message/textproto"
 	"github.com/emersion/go-msgauth/authres"
+	"github.com/emersion/go-msgauth/dkim"
 	"github.com/emersion/go-smtp"
 	"github.com/foxcpp/maddy/framework/buffer"
 	parser "github.com/foxcpp/maddy/framework/cfgparser"
@@ -35,6 +40,7 @@ import (
 	"github.com/foxcpp/maddy/framework/exterrors"
 	"github.com/foxcpp/maddy/framework/log"
 	"github.com/foxcpp/maddy/framework/module"
+	dkimcheck "github.com/foxcpp/maddy/internal/check/dkim"
 	"github.com/foxcpp/maddy/internal/dmarc"
 	"github.com/foxcpp/maddy/internal/msgpipeline"
 	"github.com/foxcpp/maddy/verifharness/vtrace"
@@ -65,6 +71,8 @@ type In struct {
 	Pct   string `json:"pct"`
 	Ldom  string `json:"ldom"`
 	Lorg  string `json:"lorg"`
+	Slow  bool   `json:"slow"` // the policy lookup is unanswered until a source-block check runs
+	Real  string `json:"real"` // "no" | "unsigned" | "valid" | "broken": DKIM results from the real check.dkim
 }
 
 type ZoneEnt struct {
@@ -83,10 +91,29 @@ type Row struct {
 type rowKey struct{}
 
 type rowEnv struct {
-	zone    map[string]string // lower-case "_dmarc.<name>" -> answer kind
-	txt     string
-	mu      sync.Mutex
-	queries []string
+	zone map[string]string // lower-case "_dmarc.<name>" -> answer kind
+	txt  string
+	// DKIM key record of real-message rows: <selector>._domainkey.<keyDomain>
+	keyDomain string
+	keyTXT    string
+	mu        sync.Mutex
+	queries   []string
+
+	// gate for "slow" rows: _dmarc queries made by the pipeline are answered only
+	// after a check of the source block has run (released), like a slow DNS server
+	gated    bool
+	gate     chan struct{}
+	gateOnce sync.Once
+	infra    string
+}
+
+func (e *rowEnv) release() { e.gateOnce.Do(func() { close(e.gate) }) }
+
+// holdCap bounds a wait that can only expire if the harness itself is wrong.
+const holdCap = 20 * time.Second
+
+func canceled(name string) error {
+	return &net.DNSError{Err: "operation was canceled", Name: name, Server: "scripted"}
 }
 
 type resolver struct{}
@@ -108,7 +135,29 @@ func (resolver) LookupTXT(ctx context.Context, name string) ([]string, error) {
 	key := strings.ToLower(strings.TrimSuffix(name, ".")) // DNS names are case-insensitive
 	env.mu.Lock()
 	env.queries = append(env.queries, name)
+	gated := env.gated
 	env.mu.Unlock()
+	// like a real resolver: a query whose context is gone fails
+	if ctx.Err() != nil {
+		return nil, canceled(name)
+	}
+	if strings.HasSuffix(key, "._domainkey."+strings.ToLower(env.keyDomain)) && env.keyTXT != "" {
+		return []string{env.keyTXT}, nil
+	}
+	if gated && strings.HasPrefix(key, "_dmarc.") {
+		select {
+		case <-env.gate:
+		case <-ctx.Done():
+			return nil, canceled(name)
+		case <-time.After(holdCap):
+			env.mu.Lock()
+			env.infra = "gated _dmarc query was never released (no source-block check ran?)"
+			env.mu.Unlock()
+		}
+		if ctx.Err() != nil {
+			return nil, canceled(name)
+		}
+	}
 	ans, ok := env.zone[key]
 	if !ok {
 		ans = "nxdomain"
@@ -147,7 +196,7 @@ func recordText(in In) string {
 }
 
 func envOf(r Row) *rowEnv {
-	env := &rowEnv{zone: map[string]string{}, txt: recordText(r.In)}
+	env := &rowEnv{zone: map[string]string{}, txt: recordText(r.In), gate: make(chan struct{})}
 	for _, z := range r.Zone {
 		env.zone["_dmarc."+strings.ToLower(z.Name)] = z.Ans
 	}
@@ -230,6 +279,36 @@ func (s *checkState) CheckBody(context.Context, textproto.Header, buffer.Buffer)
 }
 func (s *checkState) Close() error { return nil }
 
+// gateCheck sits in the source block: when its CheckBody runs the pipeline-wide body
+// checks have returned; it lets the row's slow _dmarc query be answered.
+type gateCheck struct{ envs sync.Map } // msg ID -> *rowEnv
+
+func (c *gateCheck) Init(*config.Map) error { return nil }
+func (c *gateCheck) Name() string           { return "verif_dmarc_gate" }
+func (c *gateCheck) InstanceName() string   { return "verif_dmarc_gate" }
+func (c *gateCheck) CheckStateForMsg(_ context.Context, m *module.MsgMetadata) (module.CheckState, error) {
+	v, _ := c.envs.Load(m.ID)
+	env, _ := v.(*rowEnv)
+	return &gateState{env: env}, nil
+}
+
+type gateState struct{ env *rowEnv }
+
+func (s *gateState) CheckConnection(context.Context) module.CheckResult { return module.CheckResult{} }
+func (s *gateState) CheckSender(context.Context, string) module.CheckResult {
+	return module.CheckResult{}
+}
+func (s *gateState) CheckRcpt(context.Context, string) module.CheckResult {
+	return module.CheckResult{}
+}
+func (s *gateState) CheckBody(context.Context, textproto.Header, buffer.Buffer) module.CheckResult {
+	if s.env != nil {
+		s.env.release()
+	}
+	return module.CheckResult{}
+}
+func (s *gateState) Close() error { return nil }
+
 type seen struct {
 	body, committed, aborted bool
 	quarantine               bool
@@ -286,39 +365,144 @@ func (d *tgtDelivery) Commit(context.Context) error {
 	return nil
 }
 
+// pipeline-wide check with the row's results; a source block with one more check (the
+// gate) so that body checks run in two groups, as with any per-source configuration
 const pipelineCfg = `
 dmarc yes
 check {
     verif_dmarc
 }
+default_source {
+    check {
+        verif_dmarc_gate
+    }
+    deliver_to &verif_dmarc_target
+}
+`
+
+// real-message rows: SPF from the scripted check, DKIM from the real check.dkim with
+// its default configuration (no directives)
+const realPipelineCfg = `
+dmarc yes
+check {
+    verif_dmarc
+    verif_realdkim
+}
 deliver_to &verif_dmarc_target
 `
 
 type world struct {
-	chk  *check
-	tgt  *tgt
-	pipe *msgpipeline.MsgPipeline
+	chk      *check
+	gate     *gateCheck
+	tgt      *tgt
+	pipe     *msgpipeline.MsgPipeline
+	realPipe *msgpipeline.MsgPipeline
+	realDkim *dkimcheck.Check
+	key      ed25519.PrivateKey
+	keyTXT   string
+	sigs     map[string]string
 }
 
 func newWorld(t *testing.T) *world {
-	w := &world{chk: &check{}, tgt: &tgt{msgs: map[string]*seen{}}}
-	module.Register("check.verif_dmarc", func(_, _ string, _, _ []string) (module.Module, error) {
-		return w.chk, nil
-	})
-	module.RegisterInstance(w.tgt, nil)
-	nodes, err := parser.Read(strings.NewReader(pipelineCfg), "verif-dmarc.conf")
+	w := &world{chk: &check{}, gate: &gateCheck{}, tgt: &tgt{msgs: map[string]*seen{}}, sigs: map[string]string{}}
+	pub, priv, err := ed25519.GenerateKey(rand.Reader)
 	if err != nil {
 		t.Fatal(err)
 	}
-	p, err := msgpipeline.New(map[string]interface{}{}, nodes)
-	if err != nil {
-		t.Fatalf("pipeline config: %v", err)
+	w.key = priv
+	w.keyTXT = "v=DKIM1; k=ed25519; p=" + base64.StdEncoding.EncodeToString(pub)
+	module.Register("check.verif_dmarc", func(_, _ string, _, _ []string) (module.Module, error) {
+		return w.chk, nil
+	})
+	module.Register("check.verif_dmarc_gate", func(_, _ string, _, _ []string) (module.Module, error) {
+		return w.gate, nil
+	})
+	// the real module from its own constructor; only the resolver is replaced
+	module.Register("check.verif_realdkim", func(_, instName string, _, inlineArgs []string) (module.Module, error) {
+		m, err := dkimcheck.New("check.dkim", instName, nil, inlineArgs)
+		if err != nil {
+			return nil, err
+		}
+		dkimcheck.VerifSetResolver(m.(*dkimcheck.Check), resolver{})
+		w.realDkim = m.(*dkimcheck.Check)
+		return m, nil
+	})
+	module.RegisterInstance(w.tgt, nil)
+	mk := func(cfg string) *msgpipeline.MsgPipeline {
+		nodes, err := parser.Read(strings.NewReader(cfg), "verif-dmarc.conf")
+		if err != nil {
+			t.Fatal(err)
+		}
+		p, err := msgpipeline.New(map[string]interface{}{}, nodes)
+		if err != nil {
+			t.Fatalf("pipeline config: %v", err)
+		}
+		p.Resolver = resolver{}
+		p.Hostname = "mx.verif.invalid"
+		p.Log = log.Logger{Out: log.NopOutput{}}
+		return p
 	}
-	p.Resolver = resolver{}
-	p.Hostname = "mx.verif.invalid"
-	p.Log = log.Logger{Out: log.NopOutput{}}
-	w.pipe = p
+	w.pipe = mk(pipelineCfg)
+	w.realPipe = mk(realPipelineCfg)
+	if w.realDkim == nil {
+		t.Fatal("real check.dkim was not instantiated")
+	}
 	return w
+}
+
+const (
+	realBody    = "hello\r\n"
+	realBodyAlt = "hello, this is not the signed body\r\n"
+	selector    = "verif"
+)
+
+// realHeader returns the header of the row's real message: unsigned, or carrying a real
+// ed25519 DKIM-Signature by domain d over the actual body (valid) or another body (broken).
+func (w *world) realHeader(t *testing.T, in In) textproto.Header {
+	base := "From: Author <author@" + in.From + ">\r\nSubject: verif\r\nTo: <rcpt@rcpt.invalid>\r\n" +
+		"Date: Thu, 01 Oct 2026 00:00:00 +0000\r\nMessage-Id: <1@verif.invalid>\r\n"
+	sig := ""
+	if in.Real != "unsigned" {
+		d := in.Dkim[0].D
+		k := in.Real + "|" + d + "|" + in.From
+		if f, ok := w.sigs[k]; ok {
+			sig = f
+		} else {
+			body := realBody
+			if in.Real == "broken" {
+				body = realBodyAlt
+			}
+			sg, err := dkim.NewSigner(&dkim.SignOptions{Domain: d, Selector: selector, Signer: w.key,
+				HeaderCanonicalization: dkim.CanonicalizationRelaxed, BodyCanonicalization: dkim.CanonicalizationRelaxed,
+				HeaderKeys: []string{"From", "Subject", "To", "Date"}})
+			if err != nil {
+				t.Fatal(err)
+			}
+			if _, err := sg.Write([]byte(base + "\r\n" + body)); err != nil {
+				t.Fatal(err)
+			}
+			if err := sg.Close(); err != nil {
+				t.Fatal(err)
+			}
+			sig = sg.Signature()
+			w.sigs[k] = sig
+		}
+	}
+	h, err := textproto.ReadHeader(bufio.NewReader(strings.NewReader(sig + base + "\r\n")))
+	if err != nil {
+		t.Fatal(err)
+	}
+	return h
+}
+
+func spfOnly(rs []authres.Result) []authres.Result {
+	var o []authres.Result
+	for _, r := range rs {
+		if _, ok := r.(*authres.SPFResult); ok {
+			o = append(o, r)
+		}
+	}
+	return o
 }
 
 // ---- one row -------------------------------------------------------------------
@@ -346,6 +530,8 @@ type out struct {
 	SPFAligned  bool     `json:"spfAligned"`
 	Queries     []string `json:"queries"`
 	Panic       string   `json:"panic"`
+	RealDKIM    []string `json:"realDkim"` // what the real check.dkim reported (value/domain)
+	Infra       string   `json:"infra"`    // harness-side trouble: says nothing about maddy
 }
 
 func runRow(t *testing.T, w *world, r Row) (o out) {
@@ -359,16 +545,50 @@ func runRow(t *testing.T, w *world, r Row) (o out) {
 			o.Verdict, o.Action = "panic", "panic"
 		}
 	}()
+	o.RealDKIM = []string{}
+	hdrOf := func() textproto.Header { return headerOf(in) }
+	body := buffer.MemoryBuffer{Slice: []byte("hello\r\n")}
+	pipe := w.pipe
+	pipeResults := results
+	if in.Real != "" && in.Real != "no" {
+		// DKIM results come from the real check.dkim run on the real message
+		hdrOf = func() textproto.Header { return w.realHeader(t, in) }
+		body = buffer.MemoryBuffer{Slice: []byte(realBody)}
+		pipe = w.realPipe
+		if in.Real != "unsigned" {
+			env.keyDomain, env.keyTXT = in.Dkim[0].D, w.keyTXT
+		}
+		st, err := w.realDkim.CheckStateForMsg(ctx, &module.MsgMetadata{ID: fmt.Sprintf("direct%d", r.ID)})
+		if err != nil {
+			t.Fatalf("row %d: check.dkim state: %v", r.ID, err)
+		}
+		cres := st.CheckBody(ctx, hdrOf(), body)
+		st.Close()
+		var dk []authres.Result
+		for _, ar := range cres.AuthResult {
+			if d, ok := ar.(*authres.DKIMResult); ok {
+				dk = append(dk, d)
+				o.RealDKIM = append(o.RealDKIM, string(d.Value)+"/"+d.Domain)
+			}
+		}
+		spf := spfOnly(results)
+		if in.Order == "spf_first" {
+			results = append(append([]authres.Result{}, spf...), dk...)
+		} else {
+			results = append(dk, spf...)
+		}
+		pipeResults = spf // in the pipeline the real check adds its own results
+	}
 
 	// 1. the verifier
 	v := dmarc.NewVerifier(resolver{})
-	v.FetchRecord(ctx, headerOf(in))
+	v.FetchRecord(ctx, hdrOf())
 	ev, pol := v.Apply(results)
 	v.Close()
 	o.Verdict, o.Policy, o.Reason = string(ev.Authres.Value), string(pol), ev.Authres.Reason
 
 	// 2. its pieces, for diagnosis
-	dom, err := dmarc.ExtractFromDomain(headerOf(in))
+	dom, err := dmarc.ExtractFromDomain(hdrOf())
 	o.FromOK, o.FromDomain = err == nil, dom
 	if err == nil {
 		pd, rec, ferr := dmarc.FetchRecord(ctx, resolver{}, dom)
@@ -387,22 +607,28 @@ func runRow(t *testing.T, w *world, r Row) (o out) {
 
 	// 3. the pipeline
 	id := fmt.Sprintf("row%d", r.ID)
-	w.chk.rows.Store(id, results)
+	w.chk.rows.Store(id, pipeResults)
 	defer w.chk.rows.Delete(id)
+	w.gate.envs.Store(id, env)
+	defer w.gate.envs.Delete(id)
+	defer env.release() // never leave a lookup goroutine parked
+	env.mu.Lock()
+	env.gated = in.Slow
+	env.mu.Unlock()
 	mailFrom := ""
 	if in.Spf.Mf != "" {
 		mailFrom = "bounce@" + in.Spf.Mf
 	}
 	meta := &module.MsgMetadata{ID: id, DontTraceSender: true, SMTPOpts: smtp.MailOptions{},
 		OriginalFrom: mailFrom}
-	d, err := w.pipe.Start(ctx, meta, meta.OriginalFrom)
+	d, err := pipe.Start(ctx, meta, meta.OriginalFrom)
 	if err != nil {
 		t.Fatalf("row %d: Start: %v", r.ID, err)
 	}
 	if err := d.AddRcpt(ctx, "rcpt@rcpt.invalid", smtp.RcptOptions{}); err != nil {
 		t.Fatalf("row %d: AddRcpt: %v", r.ID, err)
 	}
-	berr := d.Body(ctx, headerOf(in), buffer.MemoryBuffer{Slice: []byte("hello\r\n")})
+	berr := d.Body(ctx, hdrOf(), body)
 	if berr != nil {
 		_ = d.Abort(ctx)
 		o.PipeErr = berr.Error()
@@ -442,6 +668,7 @@ func runRow(t *testing.T, w *world, r Row) (o out) {
 	}
 	env.mu.Lock()
 	o.Queries = append([]string{}, env.queries...)
+	o.Infra = env.infra
 	env.mu.Unlock()
 	return o
 }
